@@ -256,40 +256,82 @@ def stage_enum(ctx):
     ctx.selftest("enum_replay_rejects_corrupted_expectation", g == ("ok", [b"\x02"]) and g != ("ok", [b"\x03"]))
 
 
-def stage_sig(ctx):
-    tab = S.make_sig_table(small=ctx.quick)
-    fd, path = tempfile.mkstemp(prefix="vf-c03-sigtab-", suffix=".json")
-    with os.fdopen(fd, "w") as f:
-        json.dump(tab, f)
-    try:
-        r = ctx.tlc("MC_SigEnum", "MC_SigEnum_q" if ctx.quick else "MC_SigEnum_t", env={"SIGTAB_FILE": path}, timeout=3000)
-    finally:
-        os.unlink(path)
-    recs = r.by_kind("sigcase")
-    names = tab["names"]
+def _sig_chunk(args):
+    recs, names = args
 
     def nm(st):
         return [names.get(bytes(x).hex(), bytes(x).hex()) for x in st]
-    cases = [S.mk_case("eval", pk=bytes([t["op"]]), stack=[bytes(x) for x in t["stack"]], sv=t["sv"], flags=t["flags"],
-                       sigmode="fixed") for t in recs]
-    got = [g for ch in pmap(_run_eval_chunk, split(cases, 128)) for g in ch]
-    for t, case, g in zip(recs, cases, got):
+    classes = set()
+    bad = []
+    for t in recs:
+        case = S.mk_case("eval", pk=bytes([t["op"]]), stack=[bytes(x) for x in t["stack"]], sv=t["sv"], flags=t["flags"],
+                         sigmode="fixed")
+        g = S.run_eval(case, z=S.Z_FIXED)
         exp = ("fail",) if t["status"] == "fail" else ("ok", [bytes(x) for x in t["out"]])
         gg = g if g[0] == "ok" else ("fail",)
-        ctx.evaluations += 1
-        ctx._distinct.add(("sig", t["op"], t["sv"], tuple(t["flags"]), t["status"], t["err"]))
+        classes.add((t["op"], t["sv"], tuple(t["flags"]), t["status"], t["err"]))
         if gg != exp:
             st = nm(t["stack"])
             operands = ",".join(st) if t["op"] in (172, 173) else "n=%d" % len(st)
-            ctx.fail("C03|sig|%s|%s|exp=%s:%s|got=%s" % (_opname(t["op"]), operands, exp[0], t["err"], gg[0]),
-                     "%s on %s flags %s sv %s: consensus %s %s, pycoin %s" % (_opname(t["op"]), st, t["flags"], t["sv"],
-                                                                           t["status"], t["err"] or t["out"], g),
-                     {"case": case, "spec": t, "pycoin": g, "names": st})
-    ctx.replayed += len(recs)
-    ctx.action("sig.cases", len(recs))
-    ctx.sample({"sig_case": {"op": recs[0]["op"], "stack": nm(recs[len(recs) // 3]["stack"]), "flags": recs[len(recs) // 3]["flags"],
-                             "consensus": [recs[len(recs) // 3]["status"], recs[len(recs) // 3]["err"]]}})
-    ctx.log("replayed %d CHECKSIG/CHECKMULTISIG cases" % len(recs))
+            bad.append(("C03|sig|%s|%s|exp=%s:%s|got=%s" % (_opname(t["op"]), operands, exp[0], t["err"], gg[0]),
+                        "%s on %s flags %s sv %s: consensus %s %s, pycoin %s" % (_opname(t["op"]), st, t["flags"], t["sv"],
+                                                                              t["status"], t["err"] or t["out"], g),
+                        {"case": case, "spec": t, "pycoin": [g[0], str(g[1])[:300]], "names": st}))
+    return len(recs), classes, bad[:60]
+
+
+def stage_sig(ctx):
+    import multiprocessing as mp
+    from ..par import NPROC
+    tab = S.make_sig_table(small=ctx.quick)
+    names = tab["names"]
+    fd, path = tempfile.mkstemp(prefix="vf-c03-sigtab-", suffix=".json")
+    with os.fdopen(fd, "w") as f:
+        json.dump(tab, f)
+    pool = mp.get_context("fork").Pool(NPROC)
+    buf, pending, total, sample = [], [], [0], []
+
+    def collect(ar):
+        n, classes, bad = ar.get()
+        total[0] += n
+        ctx.evaluations += n
+        ctx._distinct.update(("sig",) + c for c in classes)
+        for key, what, detail in bad:
+            ctx.fail(key, what, detail)
+
+    def flush():
+        if buf:
+            pending.append(pool.apply_async(_sig_chunk, ((list(buf), names),)))
+            del buf[:]
+        while len(pending) > 3 * NPROC:
+            collect(pending.pop(0))
+
+    def on(rec):
+        if rec.get("k") == "sigcase":
+            buf.append(rec)
+            if not sample:
+                sample.append(rec)
+            if len(buf) >= 2000:
+                flush()
+    try:
+        ctx.tlc("MC_SigEnum", "MC_SigEnum_q" if ctx.quick else "MC_SigEnum_t", env={"SIGTAB_FILE": path}, timeout=6000,
+                on_record=on, keep_records=False)
+        flush()
+        for ar in pending:
+            collect(ar)
+    finally:
+        os.unlink(path)
+        pool.close()
+        pool.join()
+    if not total[0]:
+        raise MachineryError("MC_SigEnum exported no cases")
+    ctx.replayed += total[0]
+    ctx.action("sig.cases", total[0])
+    if sample:
+        t = sample[0]
+        ctx.sample({"sig_case": {"op": t["op"], "stack": [names.get(bytes(x).hex(), "?") for x in t["stack"]], "flags": t["flags"],
+                                 "consensus": [t["status"], t["err"]]}})
+    ctx.log("replayed %d CHECKSIG/CHECKMULTISIG cases" % total[0])
 
 
 def stage_lock(ctx):
